@@ -45,6 +45,7 @@ enum {
   OP_THREAD_ALIGNED, /* a = size, b = alignment: helper thread allocates 2 aligned blocks, hands them to the model, exits (abandons) */
   OP_HALIGNED,       /* a = size, b = alignment: mi_heap_malloc_aligned from heap slot 1 (the arena-bound heap) */
   OP_THREAD_HEAPS,   /* a = size: helper thread creates two heaps, allocates 2 blocks in the newer one, deletes the older one, exits */
+  OP_FREE_PAGE,      /* a = live index: free every live block that shares a page with it (newest first) */
   OP_LAST      /* new codes go before this line only: replay files carry the numbers */
 };
 
@@ -74,6 +75,7 @@ static void vf_op_str(vf_op_t op, char* buf, size_t n) {
     case OP_EXPAND:       snprintf(buf, n, "expand(#%ld,usable+%ld)", op.a, op.b); break;
     case OP_FREE_SIZE:    snprintf(buf, n, "free_size(#%ld)", op.a); break;
     case OP_FREE_EVERY:   snprintf(buf, n, "free_every(%ld,%ld)", op.a, op.b); break;
+    case OP_FREE_PAGE:    snprintf(buf, n, "free_page_of(#%ld)", op.a); break;
     case OP_HFILL:        snprintf(buf, n, "heap_fill(h%ld,%ld)", op.a, op.b); break;
     case OP_THREAD_ALIGNED: snprintf(buf, n, "thread_alloc_aligned(%ld,%ld)", op.a, op.b); break;
     case OP_HALIGNED:     snprintf(buf, n, "heap_malloc_aligned(h1,%ld,%ld)", op.a, op.b); break;
@@ -121,6 +123,7 @@ typedef struct profile_s {
   int  thread_aligned;                 /* a helper thread allocates two aligned blocks (asizes[0]) and terminates */
   int  arena;                          /* C15: managed-arena operations */
   int  faults;                         /* hardened builds: double free / overflow / forged link operations */
+  int  free_page;                      /* free_page_of(i) for the first live block of every distinct page (at most 6 pages) */
   int  fillcount, free_every;          /* blocks per fill (default 8); enable free_every(k,phase) ops */
   int  maxlive;                        /* allocation ops disabled above this many live blocks */
   int  free_window;                    /* free(i) enumerated for all i if nlive <= window, else first/last window/2 */
@@ -165,6 +168,11 @@ static const profile_t profiles[] = {
   { .name = "P7m", .msizes = { 8 * KiB, 40 * MiB }, .nm = 2, .thread_alloc = 2, .collect1 = 1, .maxlive = 6, .free_window = 4 },
   /* P6a: arena-bound heaps and exclusive arenas (C15); start states Sa<shape> hand a guarded region to mi_manage_os_memory_ex */
   { .name = "P6a", .msizes = { 8 * KiB, 1 * MiB, 17 * MiB }, .nm = 3, .hsizes = { 8 * KiB, 1 * MiB, 17 * MiB }, .nh = 3, .arena = 1, .collect1 = 1, .maxlive = 8, .free_window = 4 },
+  /* P6d: as P6a with one size, and the arena-bound heap can be made the thread's default heap (and back): frees then adopt
+     abandoned segments (reclaim-on-free) into whatever heap is the default */
+  { .name = "P6d", .msizes = { 8 * KiB }, .nm = 1, .hsizes = { 8 * KiB }, .nh = 1, .arena = 1, .setdef = 1, .collect1 = 1, .maxlive = 16, .free_window = 4 },
+  /* P1q: page-queue transitions of a small class (direct-page table): from S12; whole pages are released in one operation */
+  { .name = "P1q", .msizes = { 1024, 64 }, .nm = 2, .free_page = 1, .collect0 = 1, .maxlive = 400, .free_window = 2 },
   /* P9s: hardened builds (C17): a full page of 8 blocks, frees, and the three fault operations at every position */
   { .name = "P9s", .msizes = { 8000, 100 }, .nm = 2, .fills = { 8000 }, .nf = 1, .faults = 1, .collect1 = 1, .maxlive = 12, .free_window = 4 },
   /* P9g: hardened builds: a small size class whose pages start behind a gap at the beginning of their slice; start state S8 leaves
@@ -570,6 +578,15 @@ static int vf_apply(vf_op_t op) {
       VF_INC(nontrivial);
       return 0;
     }
+    case OP_FREE_PAGE: {
+      int i0 = (int)op.a; if (i0 < 0 || i0 >= vf_nlive) return 0;
+      const mi_page_t* pg = _mi_ptr_page(vf_live[i0].p);
+      for (int i = vf_nlive - 1; i >= 0; i--) if (_mi_ptr_page(vf_live[i].p) == pg) {
+        if (vf_model_check_one(i, "before free") != 0) return 1;
+        vf_blk_t b = vf_live[i]; dirty_block(&b); vf_model_remove_ordered(i); mi_free(b.p);
+      }
+      return 0;
+    }
     case OP_FREE_EVERY: {
       for (int i = vf_nlive - 1; i >= 0; i--) if ((i % (int)op.a) == (int)op.b) {
         if (vf_model_check_one(i, "before free") != 0) return 1;
@@ -742,6 +759,8 @@ static int vf_list_ops(vf_op_t* out, int max) {
   else { int h = P->free_window / 2; for (int i = 0; i < h; i++) idx[ni++] = i; for (int i = vf_nlive - (P->free_window - h); i < vf_nlive; i++) idx[ni++] = i; }
   for (int k = 0; k < ni; k++) PUSH(OP_FREE, idx[k], 0);
   if (P->free_variants) for (int k = 0; k < ni; k++) PUSH(OP_FREE_SIZE, idx[k], 0);
+  if (P->free_page) { const mi_page_t* seen[6]; int ns = 0;
+    for (int i = 0; i < vf_nlive && ns < 6; i++) { const mi_page_t* pg = _mi_ptr_page(vf_live[i].p); int dup = 0; for (int k = 0; k < ns; k++) if (seen[k] == pg) dup = 1; if (!dup) { seen[ns++] = pg; PUSH(OP_FREE_PAGE, i, 0); } } }
   if (P->free_every && vf_nlive >= 8) { PUSH(OP_FREE_EVERY, 2, 0); PUSH(OP_FREE_EVERY, 2, 1); PUSH(OP_FREE_EVERY, 3, 0); PUSH(OP_FREE_EVERY, 5, 2); }
   if (P->remote_free) for (int k = 0; k < ni; k++) PUSH(OP_REMOTE_FREE, idx[k], 0);
   for (int k = 0; k < ni; k++) {
@@ -763,6 +782,7 @@ static int vf_list_ops(vf_op_t* out, int max) {
     if (g_heaps[1] != NULL) PUSH(OP_HEAP_DELETE, 1, 0);
     if (g_heaps[1] != NULL && can_alloc) { PUSH(OP_HALIGNED, 1 * MiB, 32 * MiB); PUSH(OP_HALIGNED, 64 * KiB, 4 * MiB); }
     if (can_alloc) { PUSH(OP_THREAD_ARENA, 8 * KiB, 0); PUSH(OP_THREAD_MANY, 8 * KiB, 12); }
+    if (P->setdef && g_heaps[1] != NULL) PUSH(OP_SET_DEFAULT, g_default == 1 ? 0 : 1, 0);
   }
   if (P->faults) {
     if (g_faulted) return 0;      /* debug builds: internal assertions after a detected error are outside the claim: the branch ends here */
@@ -889,6 +909,24 @@ static int build_start(const char* s) {
       mi_page_t* pg = _mi_ptr_page(vf_live[vf_nlive - 1].p);
       if (pg->free == NULL) { if (do_op(OP_FREE, vf_nlive - 1, 0)) return 1; break; }   /* hand the last one back: it becomes the descriptor */
     }
+    return 0;
+  }
+  if (strcmp(s, "S12") == 0) {
+    /* a page of the 512-byte class sits at the front of the heap's full queue; the 1024-byte queue is [B, A] where B (first) has
+       just handed out its last block but has not been looked at since, and A came back from the full queue with one free block */
+    const mi_page_t* p0 = NULL;
+    for (int k = 0; k < 200; k++) { if (do_op(OP_MALLOC, 512, 0)) return 1; const mi_page_t* pg = _mi_ptr_page(vf_live[vf_nlive - 1].p); if (p0 == NULL) p0 = pg; if (pg != p0) break; }
+    const mi_page_t* pa = NULL; const mi_page_t* pb = NULL; int first_a = vf_nlive;
+    for (int k = 0; k < 200; k++) {
+      if (do_op(OP_MALLOC, 1024, 0)) return 1;
+      const mi_page_t* pg = _mi_ptr_page(vf_live[vf_nlive - 1].p);
+      if (pa == NULL) pa = pg;
+      else if (pg != pa && pb == NULL) pb = pg;
+      if (pb != NULL && pg == pb && pb->free == NULL && pb->local_free == NULL && pb->capacity == pb->reserved) break;     /* B exhausted */
+      if (pb != NULL && pg != pb) { vf_violation("start-state", "S12: unexpected third page"); return 1; }
+    }
+    if (pb == NULL || !mi_page_is_in_full(pa)) { vf_violation("start-state", "S12: geometry (A not in the full queue)"); return 1; }
+    if (do_op(OP_FREE, first_a, 0)) return 1;     /* A leaves the full queue and is appended behind B */
     return 0;
   }
   if (strcmp(s, "S11") == 0) {
